@@ -18,6 +18,18 @@ STATEMENT that uses neither the code under test nor the model:
              files and loaded by the real `read_config` must be equal (type-aware) — the parsers are NOT modelled;
              the choice of parser by suffix is (model op `c16.parser`).
 
+  state      (every quick run) the same user dict OBJECT merged twice, then deep-compared with a pristine copy; one default
+             dict object through a sequence of merges with different users, deep-compared before/after, every result
+             against an independent reference merge of pristine copies; `apply_default_config` through sequences of
+             different users with the results poked in between (a memoised default would leak); a configuration
+             validated and then deep-compared with a pristine copy (no default filling); files lacking each top-level
+             section through `read_config` (qha / elast missing: must raise, although the defaults would supply them) and
+             through `read_config(validate=False)` + `apply_default_config` (must be the reference merge of the raw content
+             over the packaged default).  ORACLE: `ref_merge` below (written from the property statement) and the file
+             content the harness wrote.
+  source     the SOURCE of config.py / validate.py / __init__.py is tied by the translator plug-in tools/gens/config_src.py
+             (printed Lean definitions + theorems `*_is_source`); nothing of it runs here.
+
 Repaired genuine defect (fix a3016c4; site `update_config:user-dict-over-non-dict-default`): a user dictionary where
 the default has a list/scalar used to raise AttributeError; now the user's dictionary is taken whole.  Such inputs
 stay in the generator (about a fifth of the merge cases, and corpus/C16/defect-user-dict-over-default-list.json) and an
@@ -186,8 +198,19 @@ def call_validate(cfg):
         return "error:" + type(e).__name__
 
 
+_SHIPPED = None
+
+
 def load_shipped():
-    """the packaged default and the shipped examples, read by the harness itself (PyYAML), not by cij"""
+    """the packaged default and the shipped examples, read by the harness itself (PyYAML), not by cij (read once per process,
+    handed out as fresh deep copies)"""
+    global _SHIPPED
+    if _SHIPPED is None:
+        _SHIPPED = _load_shipped()
+    return copy.deepcopy(_SHIPPED)
+
+
+def _load_shipped():
     out = {}
     p = os.path.join(REPO, "cij", "data", "default", "settings.yaml")
     out["default"] = yaml.load(open(p), Loader=yaml.FullLoader)
@@ -903,6 +926,212 @@ def stream_spelling(ctx: Ctx, res: Result, shipped, vcases, n_random):
     res.distribution["spelling"] = {"configurations": n, "spellings_each": 5, "validate_flag_cases": n_flag, "suffix_names": n_sfx}
 
 
+# ------------------------------------------------------------------------------------------------ stream 5: state / purity
+def ref_merge(u, d):
+    """the property statement as a function: user over default, dictionaries merged key by key, anything else taken from
+    the user whole (independent of the code under test and of the model; always returns fresh objects)"""
+    if isinstance(u, dict) and isinstance(d, dict):
+        out = {}
+        for k in d:
+            if k not in u: out[k] = copy.deepcopy(d[k])
+        for k, v in u.items():
+            out[k] = ref_merge(v, d[k]) if k in d else copy.deepcopy(v)
+        return out
+    return copy.deepcopy(u)
+
+
+def poke(t, tag):
+    """overwrite a result in place at every depth (what a careless caller may do with a returned configuration)"""
+    if isinstance(t, dict):
+        for k in list(t.keys()):
+            if isinstance(t[k], dict): poke(t[k], tag)
+            elif isinstance(t[k], list): t[k].append(tag)
+            else: t[k] = tag
+        t["__poked__"] = tag
+
+
+def oracle_merge_twice(u, d):
+    """the same user OBJECT merged twice (d is None: apply_default_config); -> [(what, observed, expected, site)]"""
+    _, update_config, apply_default_config, _ = _impl()
+    what = "apply_default_config" if d is None else "update_config"
+    dref = load_shipped()["default"] if d is None else copy.deepcopy(d)
+    u0 = copy.deepcopy(u)
+    want = canon(ref_merge(u0, dref))
+    fails = []
+    for i in (1, 2):
+        tag, r = call_merge(*((apply_default_config, u) if d is None else (update_config, u, d)))
+        if tag == "err":
+            fails.append((f"merge {i} of the same user object raises", r, "the effective configuration", what + ":twice:raises")); break
+        if canon(r) != want:
+            fails.append((f"merge {i} of the same user object is not user-over-default", repr(r)[:300], repr(ref_merge(u0, dref))[:300],
+                          what + ":twice:differs")); break
+    if canon(u) != canon(u0):
+        fails.append(("user dict modified by merging it twice", repr(u)[:300], repr(u0)[:300], what + ":mutates-user"))
+    if d is not None and canon(d) != canon(dref):
+        fails.append(("default dict modified by merging into/over it twice", repr(d)[:300], repr(dref)[:300], what + ":mutates-default"))
+    return fails
+
+
+def oracle_sequence(users, d, poked):
+    """different users one after the other against ONE default (d is None: the packaged one inside apply_default_config, results
+    poked in between when `poked`); every result must be the reference merge of pristine copies; d unchanged at the end"""
+    _, update_config, apply_default_config, _ = _impl()
+    what = "apply_default_config" if d is None else "update_config"
+    d0 = load_shipped()["default"] if d is None else copy.deepcopy(d)
+    fails = []
+    for i, u in enumerate(users):
+        uu = copy.deepcopy(u)
+        tag, r = call_merge(*((apply_default_config, uu) if d is None else (update_config, uu, d)))
+        if tag == "err":
+            fails.append((f"call {i + 1} of a sequence raises", r, "the effective configuration", what + ":sequence:raises")); break
+        want = ref_merge(u, d0)
+        if canon(r) != canon(want):
+            fails.append((f"call {i + 1} of a sequence of merges with different users is not user-over-(pristine)-default"
+                          + (": earlier calls leak" if i else ""),
+                          repr(r)[:300], repr(want)[:300], what + ":sequence:leaks")); break
+        if d is not None and canon(d) != canon(d0):
+            fails.append((f"default dict modified by call {i + 1} of a sequence", repr(d)[:300], repr(d0)[:300], what + ":mutates-default")); break
+        if poked and d is None: poke(r, f"poked{i}")
+    return fails
+
+
+def oracle_validate_pure(cfg):
+    """validate_config must only check: the configuration it was given is deep-equal to a pristine copy afterwards"""
+    validate_config = _impl()[3]
+    before = copy.deepcopy(cfg)
+    try:
+        validate_config(cfg)
+    except Exception:  # noqa: BLE001
+        pass
+    if canon(cfg) != canon(before):
+        return [("validate_config changes the configuration it is given (keys filled / values rewritten)", repr(cfg)[:300], repr(before)[:300],
+                 "validate_config:mutates")]
+    return []
+
+
+def write_cfg(path, cfg):
+    with open(path, "w", encoding="utf-8") as fp:
+        fp.write(json.dumps(cfg) if path.endswith(".json") else yaml.safe_dump(cfg, default_flow_style=False))
+
+
+def oracle_section_file(raw, suffix):
+    """a settings file whose content is `raw` (some top-level section left out): read_config validates the FILE (qha / elast
+    missing -> must raise, whatever the defaults would supply); unvalidated it is returned as written and its effective
+    configuration is raw-over-packaged-default"""
+    read_config, _, apply_default_config, _ = _impl()
+    default = load_shipped()["default"]
+    must_raise = not isinstance(raw, dict) or "qha" not in raw or "elast" not in raw
+    fails = []
+    tmp = tempfile.mkdtemp(prefix="cij_c16s_")
+    try:
+        pth = os.path.join(tmp, "settings" + suffix)
+        write_cfg(pth, raw)
+        try:
+            got = read_config(pth); via = "returned"
+        except Exception as e:  # noqa: BLE001
+            got = None; via = "raised:" + type(e).__name__
+        if must_raise and via == "returned":
+            fails.append(("read_config accepts a settings file without a qha / elast section", via, "raises (ValidationError)", "read_config:section-missing:accepted"))
+        if via == "returned" and canon(got) != canon(raw):
+            fails.append(("read_config (validating) returns something else than the file says", repr(got)[:300], repr(raw)[:300], "read_config:returns-other"))
+        direct = call_validate(copy.deepcopy(raw))
+        if (via == "returned") != (direct == "accept"):
+            fails.append(("read_config(validate=True) and validate_config(file content) disagree", via, direct, "read_config:validate-flag"))
+        try:
+            got2 = read_config(pth, validate=False)
+        except Exception as e:  # noqa: BLE001
+            fails.append(("read_config(validate=False) raises on a well-formed file", f"{type(e).__name__}: {str(e)[:200]}", "the file content", "read_config:novalidate:raises"))
+            return fails
+        if canon(got2) != canon(raw):
+            fails.append(("read_config(validate=False) returns something else than the file says", repr(got2)[:300], repr(raw)[:300], "read_config:novalidate:differs"))
+        if isinstance(raw, dict):
+            tag, eff = call_merge(apply_default_config, got2)
+            want = ref_merge(raw, default)
+            if tag == "err" or canon(eff) != canon(want):
+                fails.append(("apply_default_config(read_config(file, validate=False)) is not the file content over the packaged default",
+                              eff if tag == "err" else repr(eff)[:300], repr(want)[:300], "effective:section-missing:differs"))
+    finally:
+        shutil.rmtree(tmp, ignore_errors=True)
+    return fails
+
+
+def stream_state(ctx: Ctx, res: Result, shipped, stop_at_first=False):
+    rng = ctx.rng
+    th = ctx.thorough()
+    default = shipped["default"]
+    stats = {}
+    counts = {"same_user_object_merged_twice": 0, "default_object_sequences": 0, "apply_default_sequences": 0, "sequence_calls": 0,
+              "validated_then_compared": 0, "section_files": 0, "section_files_must_raise": 0}
+
+    def report(fails, payload):
+        res.evaluations += 1
+        if not fails: res.traces_validated += 1
+        for what, obs, exp, site in fails:
+            res.oracle_failures.append(OracleFailure(what=what, input=payload, observed=obs, expected=exp, site=site))
+        return bool(fails) and stop_at_first
+
+    # (a) the same user dict object merged twice
+    pairs = [(copy.deepcopy(cfg), None) for cfg in shipped.values()]
+    pairs += [(gen_user_of_default(rng, default, stats), None) for _ in range(60 if th else 12)]
+    for _ in range(200 if th else 40):
+        u, d = gen_pair(rng, int(rng.integers(1, 5)), 0.05, stats)
+        pairs.append((u, d))
+    pairs.append((copy.deepcopy(default), copy.deepcopy(default)))
+    for u, d in pairs:
+        counts["same_user_object_merged_twice"] += 1
+        if report(oracle_merge_twice(copy.deepcopy(u), copy.deepcopy(d) if d is not None else None), {"check": "merge_twice", "u": u, "d": d}): return
+    # (b) one default, many users
+    for s in range(40 if th else 8):
+        n = int(rng.integers(3, 7))
+        if s % 2 == 0:
+            d = copy.deepcopy(default); users = [gen_user_of_default(rng, default, stats) for _ in range(n)]
+        else:
+            _, d = gen_pair(rng, 4, 0.0, stats)
+            users = []
+            for _ in range(n):
+                u = ref_merge(gen_pair(rng, 3, 0.05, stats)[0], {})
+                for k, v in d.items():                                  # users that go INTO the nested sections of d
+                    if isinstance(v, dict) and rng.random() < 0.7: u[k] = gen_pair(rng, 3, 0.0, stats)[0]
+                users.append(u)
+        counts["default_object_sequences"] += 1; counts["sequence_calls"] += n
+        if report(oracle_sequence(users, d, False), {"check": "sequence", "users": users, "d": d, "poked": False}): return
+    for s in range(30 if th else 6):
+        n = int(rng.integers(3, 7))
+        users = [gen_user_of_default(rng, default, stats) for _ in range(n - 1)] + [{}]
+        if s == 0: users = [copy.deepcopy(c) for k, c in shipped.items() if k != "default"][:4] + [{}, {"qha": {}, "elast": {}}]
+        poked = s % 2 == 1
+        counts["apply_default_sequences"] += 1; counts["sequence_calls"] += len(users)
+        if report(oracle_sequence(users, None, poked), {"check": "sequence", "users": users, "d": None, "poked": poked}): return
+    # (c) validated, then compared with a pristine copy: complete files, and files that leave documented leaves / blocks out
+    vcfgs = [copy.deepcopy(c) for c in shipped.values()] + [{"qha": {}, "elast": {}}, {"qha": {"settings": {}}, "elast": {"settings": {}}},
+             {"qha": {}, "elast": {"settings": {"mode_gamma": {}, "symmetry": {}}}}, {}, {"qha": {}}, {"elast": {"settings": {"symmetry": {"system": "cubic"}}}}]
+    for name, cfg in shipped.items():
+        leaves = sorted(leaf_items(cfg).keys())
+        for _ in range(12 if th else 3):
+            v = copy.deepcopy(cfg)
+            for i in rng.permutation(len(leaves))[:int(rng.integers(1, 6))]:
+                v = del_path(v, leaves[i])
+            vcfgs.append(v)
+        for spec in FIELDS[:: (1 if th else 4)]:
+            vcfgs.append(set_path(cfg, spec[0], WRONG[spec[1]][int(rng.integers(0, len(WRONG[spec[1]])))]))   # invalid ones too
+    for cfg in vcfgs:
+        counts["validated_then_compared"] += 1
+        if report(oracle_validate_pure(copy.deepcopy(cfg)), {"check": "validate_pure", "cfg": cfg}): return
+    # (d) files lacking each top-level section
+    sfx = [".yaml", ".yml", ".json"]
+    j = 0
+    bases = dict(shipped); bases["minimal"] = {"qha": {}, "elast": {}}
+    for name, cfg in bases.items():
+        raws = [del_path(cfg, (k,)) for k in cfg] + [del_path(del_path(cfg, ("qha",)), ("elast",)), {}]
+        for raw in raws:
+            for suffix in (sfx if th else [sfx[j % 3]]):
+                counts["section_files"] += 1
+                counts["section_files_must_raise"] += int("qha" not in raw or "elast" not in raw)
+                if report(oracle_section_file(copy.deepcopy(raw), suffix), {"check": "section_file", "cfg": raw, "suffix": suffix}): return
+            j += 1
+    res.distribution["state"] = counts
+
+
 # ------------------------------------------------------------------------------------------------ translator tie
 def stream_translator(ctx: Ctx, res: Result, shipped, schema):
     """what the model holds as packaged default / schema / examples is what the real files contain now"""
@@ -957,10 +1186,13 @@ def run(ctx: Ctx) -> Result:
     stream_variants(ctx, res, schema, vcases)
     stream_spelling(ctx, res, shipped, vcases, n_random=400 if th else 40)
     stream_partial(ctx, res, shipped)
+    stream_state(ctx, res, shipped)
     seen.discard(json.dumps(["merge", enc({}), enc({})], sort_keys=True))
     res.distinct_nontrivial = len(seen)
     res.notes.append("parsers (PyYAML/json) are not modelled; YAML/JSON equivalence is tested on the real read_config only")
     res.notes.append("mutation of inputs is checked on the real code by deep comparison before/after every merge call")
+    res.notes.append("the source of update_config / apply_default_config / read_config / validate_config is tied by the translator plug-in "
+                     "tools/gens/config_src.py (printed definitions in Generated/ConfigSrc.lean, theorems *_is_source)")
     return res
 
 
@@ -977,6 +1209,7 @@ def search(ctx: Ctx, res: Result):
                  corpus_dir=ctx.corpus_dir, deadline=ctx.deadline)
         stream_merge(c2, out, n_random=3000, n_default=800, shipped=shipped, stop_at_first=True)
         stream_validate(c2, out, shipped, schema)
+        stream_state(c2, out, shipped, stop_at_first=True)
         found = list(out.oracle_failures)
         if any(f.site != SITE_DEFECT for f in found): break
     # disagreeing inputs themselves, through the oracle
@@ -1009,6 +1242,15 @@ def replay(ctx: Ctx, payload):
                           f"validate:{payload.get('kind')}:{'.'.join(payload.get('field', []))}:{payload['expect']}")]
     elif chk == "spelling":
         fails = oracle_spelling(payload["cfg"])
+    elif chk == "merge_twice":
+        fails = oracle_merge_twice(copy.deepcopy(payload["u"]), copy.deepcopy(payload["d"]) if payload.get("d") is not None else None)
+    elif chk == "sequence":
+        fails = oracle_sequence(copy.deepcopy(payload["users"]), copy.deepcopy(payload["d"]) if payload.get("d") is not None else None,
+                                bool(payload.get("poked")))
+    elif chk == "validate_pure":
+        fails = oracle_validate_pure(copy.deepcopy(payload["cfg"]))
+    elif chk == "section_file":
+        fails = oracle_section_file(copy.deepcopy(payload["cfg"]), payload.get("suffix", ".yaml"))
     elif chk == "partial":
         cfg = payload["cfg"]
         v = copy.deepcopy(cfg)
